@@ -17,6 +17,7 @@ sys.path.insert(0, os.path.join(os.path.dirname(os.path.dirname(os.path.abspath(
 from tools import vlib
 from tools.vlib import d2tok, tok2d
 import femmio
+import cuthill_tie
 from runner import Run
 
 PER = {"m": (4, 5), "e": (3, 4), "h": (4, 5)}
@@ -323,6 +324,8 @@ def main(argv):
                     ck.violation("solver-failed:" + tag, "the solver fails on a valid periodic cell: %s" % run.solve_out[-300:], dict(files=run.files()))
                 continue
             sol = femmio.read_solution(run.solution_path(), kind)
+            # the renumbering of the nodes - and of the (anti)periodic pair list through it - against Model/Cuthill.lean
+            cuthill_tie.tie(ck, stats, mx, run, sol, {"m": "fsolver", "e": "esolver", "h": "hsolver"}[kind])
             # the solvers renumber the nodes: potentials are looked up by position
             from scipy.spatial import cKDTree
             tree = cKDTree([(n[0], n[1]) for n in sol["nodes"]])
